@@ -2,16 +2,18 @@
 # tools/run_mutant.sh <seeded-id> <check> [<check> ...]
 # Applies a seeded mutant to a scratch worktree of /repo HEAD (never to /repo itself while other work is going on),
 # runs the named checks against that tree (VERIF_REPO), prints whether each raised an alarm, removes the worktree.
+# Works from whatever copy of /verif the script lives in (so shards can run in parallel from `vp run` snapshots).
+V=$(cd "$(dirname "$0")/.." && pwd)
 id=$1; shift
-WT=/tmp/mutrun-wt
+WT=/tmp/mutrun-wt-$$
 git -C /repo worktree remove --force $WT 2>/dev/null
 git -C /repo worktree add --detach $WT HEAD >/dev/null 2>&1 || exit 2
-( cd $WT && git apply /verif/seeded/$id/patch.diff ) || { echo "$id: patch does not apply"; git -C /repo worktree remove --force $WT; exit 2; }
+( cd $WT && git apply $V/seeded/$id/patch.diff ) || { echo "$id: patch does not apply"; git -C /repo worktree remove --force $WT; exit 2; }
 for c in "$@"; do
-  out=$(cd /verif && VERIF_REPO=$WT timeout 1800 bin/check $c quick 2>&1); rc=$?
+  out=$(cd $V && VERIF_REPO=$WT timeout 1800 bin/check $c quick 2>&1); rc=$?
   first=$(echo "$out" | grep -A1 '^VIOLATION' | head -2 | tr '\n' ' ' | cut -c1-260)
   echo "$id check=$c rc=$rc $first"
 done
 git -C /repo worktree remove --force $WT
 # restore generated files / harness for the real tree
-( cd /verif && python3 -c "import sys; sys.path.insert(0,'lib'); import core; core.build_all(None)" >/dev/null 2>&1 )
+( cd $V && python3 -c "import sys; sys.path.insert(0,'lib'); import core; core.build_all(None)" >/dev/null 2>&1 )
